@@ -253,6 +253,11 @@ class NumpyModel:
             if op == "+":
                 return a
         if op == "-":
+            from .values import OptV as _OptV
+            if isinstance(a, _OptV) and a.nanlike:
+                return _OptV(a.is_none, num_neg(a.value), nanlike=True)      # -nan is nan
+            if not is_numv(a):
+                raise Unsupported(f"unary minus on {a!r}")
             return num_neg(a)
         if op == "+":
             if isinstance(a, (str, Opaque)):
